@@ -5,7 +5,7 @@ From Coq Require Import List.
 From Coq.Strings Require Import Byte.
 From GI Require Import Lib.Bytes Gen.TxtarConsts Txtar.Txtar Txtar.TxtarFacts
   Txtar.TxtarIndex Txtar.TxtarIndexFacts Txtar.TxtarHolds Txtar.TxtarHoldsFacts
-  Lib.Utf8 Lib.Utf8Facts Lib.Utf8Trim Lib.Utf8TrimFacts.
+  Lib.Utf8 Lib.Utf8Facts Lib.Utf8Trim Lib.Utf8TrimFacts Lib.GoSem Gen.TxtarSrc Txtar.SrcFacts.
 Import ListNotations.
 
 Theorem C03_parse_format_parse : forall s, parse (format (parse s)) = parse s.
@@ -125,3 +125,46 @@ Print Assumptions C03_trim_space_runes.
 Theorem C03_trim_func_eq : forall d, trim_func d = Some (trim_space d).
 Proof. exact trim_func_eq. Qed.
 Print Assumptions C03_trim_func_eq.
+
+(* ---- txtar/archive.go as TRANSLATED from the Go source text on every run (Gen/TxtarSrc.v, made by
+   harness/go2coq in the vocabulary of Lib/GoSem.v): every generated function is proved equal, on
+   every input, to the hand-written statement-level model, failure values included; so all of the
+   above holds of the code as translated.  [fuel] bounds the iterations of each loop execution. ---- *)
+
+Theorem C03_source_is_marker_eq : forall data,
+  src_isMarker data = match is_marker_idx data with MRes n a => Ok (n, a) | MPanic => Panic end.
+Proof. exact src_isMarker_eq. Qed.
+Print Assumptions C03_source_is_marker_eq.
+
+Theorem C03_source_fix_nl_eq : forall data, src_fixNL data = Ok (fix_nl data).
+Proof. exact src_fixNL_eq. Qed.
+Print Assumptions C03_source_fix_nl_eq.
+
+Theorem C03_source_find_file_marker_eq : forall fuel data,
+  src_findFileMarker fuel data = find_file_marker_fuel fuel data.
+Proof. exact src_findFileMarker_eq. Qed.
+Print Assumptions C03_source_find_file_marker_eq.
+
+Theorem C03_source_parse_eq : forall fuel s, length s + 2 <= fuel -> src_Parse fuel s = Ok (parse s).
+Proof. exact src_Parse_eq. Qed.
+Print Assumptions C03_source_parse_eq.
+
+Theorem C03_source_parse_idx_eq : forall fuel s, length s + 2 <= fuel -> src_Parse fuel s = parse_idx s.
+Proof. exact src_Parse_idx_eq. Qed.
+Print Assumptions C03_source_parse_idx_eq.
+
+Theorem C03_source_parse_total : forall fuel s,
+  length s + 2 <= fuel -> src_Parse fuel s <> Panic /\ src_Parse fuel s <> OutOfFuel.
+Proof. exact src_Parse_total. Qed.
+Print Assumptions C03_source_parse_total.
+
+Theorem C03_source_parse_format_parse : forall fuel fuel' s a,
+  length s + 2 <= fuel -> src_Parse fuel s = Ok a ->
+  length (format a) + 2 <= fuel' -> src_Parse fuel' (format a) = Ok a.
+Proof. exact src_Parse_format_parse. Qed.
+Print Assumptions C03_source_parse_format_parse.
+
+Theorem C03_source_parse_format_wf : forall fuel a,
+  wf_archive a = true -> length (format a) + 2 <= fuel -> src_Parse fuel (format a) = Ok a.
+Proof. exact src_Parse_format_wf. Qed.
+Print Assumptions C03_source_parse_format_wf.
